@@ -1,9 +1,9 @@
 (* C17 — all peers agree on who owns a subscriber.  Statements only; proofs are in
-   Proofs/RendezvousProofs.v and Proofs/RendezvousRefine.v.  Each theorem is closed by [exact] and
+   Proofs/RendezvousProofs.v, Proofs/RendezvousRefine.v and Proofs/RendezvousRaceProofs.v.  Each theorem is closed by [exact] and
    followed by Print Assumptions. *)
 From Coq Require Import NArith List Bool Permutation Sorted.
-From Verif Require Import Base.Word Base.Check Model.Rendezvous Model.RendezvousSpec
-  Proofs.RendezvousProofs Proofs.RendezvousRefine.
+From Verif Require Import Base.Word Base.Check Model.Rendezvous Model.RendezvousSpec Model.RendezvousRace
+  Proofs.RendezvousProofs Proofs.RendezvousRefine Proofs.RendezvousRaceProofs.
 Import ListNotations.
 Local Open Scope N_scope.
 
@@ -180,6 +180,70 @@ Theorem C17_alloc_names_requested_id_refuted :
     (map (fun x => (fst (fst x), snd (fst x))) (model_trace step (init ex_cfgs) [Alloc 0 [255]])) = (1, 9).
 Proof. exact alloc_identity_refuted. Qed.
 Print Assumptions C17_alloc_names_requested_id_refuted.
+
+(* (8) the peer list is a set: for every history on any number of nodes whose configured lists repeat no
+   name, every node's peer list stays sorted and duplicate-free, and the ranked list (a permutation of it)
+   names no peer twice.  This is the yardstick of the concurrent stream `race`: a real PeerPool that shows a
+   peer twice after concurrent AddPeer calls is in a state no sequential order produces. *)
+Theorem C17_peer_list_is_a_sorted_set : forall cfgs ops,
+  Forall (fun c => NoDup (snd c)) cfgs ->
+  Forall (fun nd => StronglySorted lex_le (peers nd) /\ NoDup (peers nd)) (run_model (init cfgs) ops).
+Proof. exact peer_lists_stay_sets. Qed.
+Print Assumptions C17_peer_list_is_a_sorted_set.
+
+Theorem C17_ranked_names_no_peer_twice : forall cfgs ops k,
+  Forall (fun c => NoDup (snd c)) cfgs ->
+  Forall (fun nd => NoDup (ranked k (peers nd)) /\ Permutation (ranked k (peers nd)) (peers nd)) (run_model (init cfgs) ops).
+Proof. exact ranked_has_no_duplicates. Qed.
+Print Assumptions C17_ranked_names_no_peer_twice.
+
+(* (8') outside the guard: NewPeerPool keeps a name the configured list repeats *)
+Theorem C17_configured_duplicate_survives_refuted :
+  peers (new_node [97] [[98]; [98]; [97]]) = [[97]; [98]; [98]].
+Proof. exact configured_duplicate_survives. Qed.
+Print Assumptions C17_configured_duplicate_survives_refuted.
+
+(* (9) IsLocalOwner is (GetOwner = own id) in every state of every node, and a node that is absent from its
+   own peer list (drained by RemovePeer of itself) claims no subscriber *)
+Theorem C17_is_local_iff_owner_is_self : forall s n k,
+  step_out s (IsLocal n k) =
+  OBool (match step_out s (GetOwner n k) with OStr o => bytes_eqb o (self (getn s n)) | _ => false end).
+Proof. exact is_local_iff_owner_is_self. Qed.
+Print Assumptions C17_is_local_iff_owner_is_self.
+
+Theorem C17_drained_node_owns_nothing_partial : forall s n k,
+  peers (getn s n) <> [] -> scores_pos k (peers (getn s n)) -> ~ In (self (getn s n)) (peers (getn s n)) ->
+  step_out s (IsLocal n k) = OBool false.
+Proof. exact drained_node_owns_nothing. Qed.
+Print Assumptions C17_drained_node_owns_nothing_partial.
+
+(* (10) the judge of the concurrent stream (Model/RendezvousRace.v judge_round) accepts every round that was
+   executed sequentially: the calls (updates and queries, updates pairwise distinct) one after the other in
+   the listed order, the view read afterwards; it continues from a state with that view.  So a rejected
+   round has no explanation "in the listed order"; the judge itself tries every order of the updates. *)
+Theorem C17_race_judge_accepts_sequential_rounds : forall s ops,
+  forallb (fun o => is_update o || is_query o) ops = true ->
+  dedup_updates (filter is_update ops) = filter is_update ops ->
+  let s' := seq_final s ops in
+  exists s'', judge_round s (seq_trace s ops, (peers (getn s' 0), unhealthy (getn s' 0))) = inl s'' /\
+              peers (getn s'' 0) = peers (getn s' 0) /\ unhealthy (getn s'' 0) = unhealthy (getn s' 0).
+Proof. exact judge_accepts_sequential_round. Qed.
+Print Assumptions C17_race_judge_accepts_sequential_rounds.
+
+(* non-vacuity of (10), and what the judge rejects: a peer twice in the list after two concurrent
+   announcements (clause 2), a removed peer still listed (clause 3), an owner no admissible set explains (0) *)
+Example C17_race_round_sequential_example :
+  forallb (fun o => is_update o || is_query o) rx_ops = true /\
+  dedup_updates (filter is_update rx_ops) = filter is_update rx_ops /\
+  peers (getn (seq_final rx_s rx_ops) 0) = [rx_a; rx_x] /\ unhealthy (getn (seq_final rx_s rx_ops) 0) = [rx_b].
+Proof. exact ex_sequential_round. Qed.
+
+Example C17_race_judge_verdicts :
+  (exists s', judge_round rx_s ([(AddPeer 0 rx_x, ONone); (AddPeer 0 rx_x, ONone)], ([rx_a; rx_b; rx_x], [])) = inl s') /\
+  judge_round rx_s ([(AddPeer 0 rx_x, ONone); (AddPeer 0 rx_x, ONone)], ([rx_a; rx_b; rx_x; rx_x], [])) = inr 2 /\
+  judge_round [new_node rx_a [rx_a; rx_b; rx_x]] ([(RemovePeer 0 rx_x, ONone)], ([rx_a; rx_b; rx_x], [])) = inr 3 /\
+  judge_round rx_s ([(AddPeer 0 rx_x, ONone); (GetOwner 0 [115;49], OStr [122])], ([rx_a; rx_b; rx_x], [])) = inr 0.
+Proof. exact ex_judge_verdicts. Qed.
 
 (* non-vacuity: the guards hold on a concrete cluster *)
 Example C17_guards_satisfiable :
